@@ -147,9 +147,12 @@ func (t *tr) typ(e ast.Expr) string {
 			return "list " + paren(el)
 		}
 	case *ast.MapType:
-		if t.typ(x.Key) == "string" {
-			if el := t.typ(x.Value); el != "" {
+		if el := t.typ(x.Value); el != "" {
+			switch t.typ(x.Key) {
+			case "string":
 				return "alist " + paren(el)
+			case "list Z":
+				return "balist " + paren(el)
 			}
 		}
 	}
@@ -212,6 +215,17 @@ func (t *tr) record(name string) {
 	t.recOrder = append(t.recOrder, name)
 }
 
+// mapType: for the Gallina type of a Go map, its value type and the lookup / update functions.
+func mapType(ty string) (val, lookup, update string, ok bool) {
+	switch {
+	case strings.HasPrefix(ty, "alist "):
+		return unparen(strings.TrimPrefix(ty, "alist ")), "lookup", "update", true
+	case strings.HasPrefix(ty, "balist "): // keys are byte strings (units with bytestr)
+		return unparen(strings.TrimPrefix(ty, "balist ")), "blookup", "bupdate", true
+	}
+	return "", "", "", false
+}
+
 func (t *tr) zero(ty string) string {
 	switch {
 	case ty == "Z":
@@ -220,7 +234,7 @@ func (t *tr) zero(ty string) string {
 		return "false"
 	case ty == "string":
 		return "\"\""
-	case strings.HasPrefix(ty, "list "), strings.HasPrefix(ty, "alist "):
+	case strings.HasPrefix(ty, "list "), strings.HasPrefix(ty, "alist "), strings.HasPrefix(ty, "balist "):
 		return "[]"
 	case strings.HasPrefix(ty, "option "):
 		return "None"
@@ -370,6 +384,14 @@ func (t *tr) shapes() {
 						f.fuel = true
 					}
 				case *ast.CallExpr:
+					if g, _ := t.callee(s, func(id *ast.Ident) string {
+						if f.recv != nil && id.Obj == f.recv {
+							return f.recvT
+						}
+						return ""
+					}); g != nil && g.fuel {
+						f.fuel = true
+					}
 					if src := t.src(s.Fun); t.unit.clock && strings.HasPrefix(src, "time.") {
 						f.clk = f.clk || src == "time.Now" || src == "time.Since" || src == "time.Sleep"
 						f.slp = f.slp || src == "time.Sleep"
@@ -526,24 +548,25 @@ func (f *fn) pure() bool {
 
 // fctx: translation state of one function body.
 type fctx struct {
-	t      *tr
-	f      *fn
-	names  map[*ast.Object]string // Go variable -> Gallina name (one name per declaration)
-	types  map[*ast.Object]string
-	used   map[string]bool
-	brk    func() string // code for `break` / `continue` in the innermost loop (nil outside loops)
-	cont   func() string
-	elem   map[*ast.Object][2]string // `for i := range xs`: i -> (source text of xs, Gallina name of xs[i])
-	atStmt bool                      // translating the call of a foreignStmt
-	made   ast.Node                  // the make(chan) of this function (at most one)
-	iota   int                       // value of iota while a constant's expression is translated
-	rev    map[*ast.RangeStmt]bool   // synthesized from `for i := len(xs)-1; i >= 0; i--`: runs over the slice backwards
-	owned  map[*ast.Object]bool      // locals initialised by a struct literal: the only non-receiver variables whose fields may be assigned
+	t       *tr
+	f       *fn
+	names   map[*ast.Object]string // Go variable -> Gallina name (one name per declaration)
+	types   map[*ast.Object]string
+	used    map[string]bool
+	brk     func() string // code for `break` / `continue` in the innermost loop (nil outside loops)
+	cont    func() string
+	elem    map[*ast.Object][2]string // `for i := range xs`: i -> (source text of xs, Gallina name of xs[i])
+	atStmt  bool                      // translating the call of a foreignStmt
+	lambdas map[*ast.Object]string    // x := func(..) T { return e }: Gallina result type of the local function x
+	made    ast.Node                  // the make(chan) of this function (at most one)
+	iota    int                       // value of iota while a constant's expression is translated
+	rev     map[*ast.RangeStmt]bool   // synthesized from `for i := len(xs)-1; i >= 0; i--`: runs over the slice backwards
+	owned   map[*ast.Object]bool      // locals initialised by a struct literal: the only non-receiver variables whose fields may be assigned
 }
 
 var reserved = strings.Fields(`as at cofix else end exists exists2 fix for forall fun if IF in let match mod Prop return
   Set then Type using where with by effs_ lookup update isSome odef zlen slice_to slice_from Ret Panic app negb true false
-  Some None tt fst snd effs_1 slen nth rev now_ fuel_ O S bytes_eqb bytes_has_prefix bytes_index bytes_index_byte length Z bool string list option alist unit nil cons res effect andb orb`)
+  Some None tt fst snd effs_1 slen nth rev now_ fuel_ O S bytes_eqb bytes_has_prefix bytes_index bytes_index_byte list_set blookup bupdate balist length Z bool string list option alist unit nil cons res effect andb orb`)
 
 func (c *fctx) fresh(base string) string {
 	for _, ch := range base {
@@ -582,7 +605,7 @@ func (t *tr) translate(f *fn) {
 	if f.mut && !f.ptrRecv {
 		t.fail(f.d, "method %s, which modifies a value receiver", f.key)
 	}
-	c := &fctx{t: t, f: f, names: map[*ast.Object]string{}, types: map[*ast.Object]string{}, used: map[string]bool{}, elem: map[*ast.Object][2]string{}, owned: map[*ast.Object]bool{}, rev: map[*ast.RangeStmt]bool{}}
+	c := &fctx{t: t, f: f, names: map[*ast.Object]string{}, types: map[*ast.Object]string{}, used: map[string]bool{}, elem: map[*ast.Object][2]string{}, lambdas: map[*ast.Object]string{}, owned: map[*ast.Object]bool{}, rev: map[*ast.RangeStmt]bool{}}
 	for _, r := range reserved {
 		c.used[r] = true
 	}
@@ -747,6 +770,27 @@ func (c *fctx) stmt(s ast.Stmt, k func() string) string {
 		return c.assign(s.X, v, ty, false) + k()
 	case *ast.DeclStmt:
 		gd, ok := s.Decl.(*ast.GenDecl)
+		if ok && gd.Tok == token.CONST { // local constants (with iota and implicit repetition)
+			out := ""
+			var last []ast.Expr
+			for si, sp := range gd.Specs {
+				vs := sp.(*ast.ValueSpec)
+				if len(vs.Values) > 0 {
+					last = vs.Values
+				}
+				for i, id := range vs.Names {
+					if i >= len(last) {
+						t.fail(vs, "constant declaration %s", t.src(vs))
+					}
+					old := c.iota
+					c.iota = si
+					v, ty := c.expr(last[i], "")
+					c.iota = old
+					out += "let " + c.declare(id, ty) + " : " + ty + " := " + v + " in\n"
+				}
+			}
+			return out + k()
+		}
 		if !ok || gd.Tok != token.VAR {
 			break
 		}
@@ -807,6 +851,26 @@ func (c *fctx) stmt(s ast.Stmt, k func() string) string {
 	case *ast.IfStmt:
 		if s.Init != nil {
 			return c.stmt(s.Init, func() string { return c.stmt(&ast.IfStmt{If: s.If, Cond: s.Cond, Body: s.Body, Else: s.Else}, k) })
+		}
+		if vars, ok := c.assignOnly(s); ok && t.unit.join {
+			if len(vars) == 0 {
+				return k()
+			}
+			var names []string
+			for _, v := range vars {
+				names = append(names, c.names[v])
+			}
+			out := func() string { return tuple(names) }
+			cond, _ := c.expr(s.Cond, "bool")
+			els := out()
+			if s.Else != nil {
+				els = c.stmt(s.Else, out)
+			}
+			pat := names[0]
+			if len(names) > 1 {
+				pat = "'" + tuple(names)
+			}
+			return "let " + pat + " :=\n" + ind("if "+cond+" then\n"+ind(c.block(s.Body.List, out))+"\nelse\n"+ind(els)) + " in\n" + k()
 		}
 		cond, _ := c.expr(s.Cond, "bool")
 		els := ""
@@ -875,6 +939,47 @@ func (c *fctx) stmt(s ast.Stmt, k func() string) string {
 	return ""
 }
 
+// assignOnly: the if statement (without init) consists of assignments to local variables only — no return, branch,
+// loop, call statement, field or element assignment; returns the assigned variables that are declared outside it.
+func (c *fctx) assignOnly(s *ast.IfStmt) ([]*ast.Object, bool) {
+	ok := true
+	var vars []*ast.Object
+	seen := map[*ast.Object]bool{}
+	ast.Inspect(s, func(n ast.Node) bool {
+		switch n := n.(type) {
+		case *ast.ReturnStmt, *ast.BranchStmt, *ast.ForStmt, *ast.RangeStmt, *ast.ExprStmt, *ast.DeferStmt, *ast.SwitchStmt,
+			*ast.IncDecStmt, *ast.DeclStmt, *ast.FuncLit, *ast.GoStmt, *ast.LabeledStmt:
+			ok = false
+		case *ast.IfStmt:
+			if n.Init != nil {
+				ok = false
+			}
+		case *ast.AssignStmt:
+			if n.Tok != token.ASSIGN {
+				ok = false
+			}
+			for _, r := range n.Rhs {
+				if call, isCall := r.(*ast.CallExpr); isCall {
+					if g, _ := c.t.callee(call, c.typeOfIdent); (g != nil && !g.pure()) || c.isAction(call) {
+						ok = false
+					}
+				}
+			}
+			for _, l := range n.Lhs {
+				id, isId := l.(*ast.Ident)
+				if !isId || id.Obj == nil || c.names[id.Obj] == "" || id.Obj == c.f.recv {
+					ok = false
+				} else if !seen[id.Obj] {
+					seen[id.Obj] = true
+					vars = append(vars, id.Obj)
+				}
+			}
+		}
+		return ok
+	})
+	return vars, ok
+}
+
 func firstLine(s string) string {
 	if i := strings.IndexByte(s, '\n'); i >= 0 {
 		return s[:i] + " ..."
@@ -911,9 +1016,22 @@ func (c *fctx) assign(l ast.Expr, v, ty string, define bool) string {
 	case *ast.IndexExpr: // m[k] = v
 		m, mt := c.expr(x.X, "")
 		_, isField := x.X.(*ast.SelectorExpr) // maps are references: only a map in a field of the receiver, or a local made here, may be assigned
-		if r := rootIdent(x.X); strings.HasPrefix(mt, "alist ") && r != nil && ((isField && r.Obj == c.f.recv) || (!isField && c.owned[r.Obj])) {
-			key, _ := c.expr(x.Index, "string")
-			out := c.assign(x.X, "update "+paren(m)+" "+paren(key)+" "+paren(v), mt, false)
+		_, _, upd, isMap := mapType(mt)
+		if r := rootIdent(x.X); !isMap && strings.HasPrefix(mt, "list ") && r != nil && !isField && c.owned[r.Obj] {
+			// xs[i] = v on a slice made in this function; inside `for i := range xs` only at the loop's own index
+			for key, el := range c.elem {
+				if id, ok := x.Index.(*ast.Ident); el[0] == t.src(x.X) && !(ok && id.Obj == key) {
+					t.fail(l, "assignment to %s inside a range over it at another index", t.src(x.X))
+				}
+			}
+			idx, _ := c.expr(x.Index, "Z")
+			out := c.assign(x.X, "list_set "+paren(m)+" "+paren(idx)+" "+paren(v), mt, false)
+			c.owned[r.Obj] = true
+			return out
+		}
+		if r := rootIdent(x.X); isMap && r != nil && ((isField && r.Obj == c.f.recv) || (!isField && c.owned[r.Obj])) {
+			key, _ := c.expr(x.Index, "")
+			out := c.assign(x.X, upd+" "+paren(m)+" "+paren(key)+" "+paren(v), mt, false)
 			if r := rootIdent(x.X); !isField {
 				c.owned[r.Obj] = true
 			}
@@ -948,12 +1066,12 @@ func (c *fctx) assignStmt(s *ast.AssignStmt, k func() string) string {
 	if len(s.Rhs) == 1 {
 		if ix, ok := s.Rhs[0].(*ast.IndexExpr); ok && len(s.Lhs) == 2 { // v, ok := m[k]
 			m, mt := c.expr(ix.X, "")
-			if !strings.HasPrefix(mt, "alist ") {
+			vt, lk, _, isMap := mapType(mt)
+			if !isMap {
 				t.fail(s, "two-valued index of a non-map")
 			}
-			vt := unparen(strings.TrimPrefix(mt, "alist "))
-			key, _ := c.expr(ix.Index, "string")
-			look := "lookup " + paren(m) + " " + paren(key)
+			key, _ := c.expr(ix.Index, "")
+			look := lk + " " + paren(m) + " " + paren(key)
 			return c.assign(s.Lhs[0], "odef "+t.zero(vt)+" ("+look+")", vt, def) + c.assign(s.Lhs[1], "isSome ("+look+")", "bool", def) + k()
 		}
 		if call, ok := s.Rhs[0].(*ast.CallExpr); ok {
@@ -966,6 +1084,9 @@ func (c *fctx) assignStmt(s *ast.AssignStmt, k func() string) string {
 	}
 	if len(s.Lhs) != len(s.Rhs) {
 		t.fail(s, "assignment %s", firstLine(t.src(s)))
+	}
+	if lit, ok := s.Rhs[0].(*ast.FuncLit); ok && def && len(s.Lhs) == 1 {
+		return c.lambda(s.Lhs[0].(*ast.Ident), lit) + k()
 	}
 	if len(s.Lhs) == 1 {
 		v, ty := c.expr(s.Rhs[0], c.lhsType(s.Lhs[0], def))
@@ -988,6 +1109,52 @@ func (c *fctx) assignStmt(s *ast.AssignStmt, k func() string) string {
 	return out + k()
 }
 
+// lambda:  x := func(p T) R { return e }  =>  let x := fun (p : T) => e in ...   The literal captures variables by
+// value here and by reference in Go: refused if a captured variable is assigned after the literal.
+func (c *fctx) lambda(name *ast.Ident, lit *ast.FuncLit) string {
+	t := c.t
+	ret, ok := lit.Body.List[0].(*ast.ReturnStmt)
+	if len(lit.Body.List) != 1 || !ok || len(ret.Results) != 1 || lit.Type.Results == nil || len(lit.Type.Results.List) != 1 {
+		t.fail(lit, "function literal other than func(...) T { return e }")
+	}
+	params := ""
+	mine := map[*ast.Object]bool{}
+	for _, p := range lit.Type.Params.List {
+		ty := t.typ(p.Type)
+		for _, id := range p.Names {
+			params += " (" + c.declare(id, ty) + " : " + ty + ")"
+			mine[id.Obj] = true
+		}
+	}
+	captured := map[*ast.Object]bool{}
+	ast.Inspect(ret, func(n ast.Node) bool {
+		if id, ok := n.(*ast.Ident); ok && id.Obj != nil && c.names[id.Obj] != "" && !mine[id.Obj] {
+			captured[id.Obj] = true
+		}
+		return true
+	})
+	ast.Inspect(c.f.d.Body, func(n ast.Node) bool {
+		var lhs []ast.Expr
+		switch s := n.(type) {
+		case *ast.AssignStmt:
+			lhs = s.Lhs
+		case *ast.IncDecStmt:
+			lhs = []ast.Expr{s.X}
+		}
+		for _, l := range lhs {
+			if r := rootIdent(l); r != nil && captured[r.Obj] && l.Pos() > lit.End() {
+				t.fail(lit, "function literal that captures %s, which is assigned later", r.Name)
+			}
+		}
+		return true
+	})
+	rt := t.typ(lit.Type.Results.List[0].Type)
+	body, _ := c.expr(ret.Results[0], rt)
+	n := c.declare(name, "fun")
+	c.lambdas[name.Obj] = rt
+	return "let " + n + " := fun" + params + " => " + body + " in\n"
+}
+
 // lhsType: the type an assignment target already has ("" if it is being declared or is `_`).
 func (c *fctx) lhsType(l ast.Expr, def bool) string {
 	if id, ok := l.(*ast.Ident); ok && (id.Name == "_" || id.Obj == nil || (def && c.names[id.Obj] == "")) {
@@ -1006,6 +1173,9 @@ func isFresh(e ast.Expr) bool {
 		e = u.X
 	}
 	if call, ok := e.(*ast.CallExpr); ok {
+		if _, conv := call.Fun.(*ast.ArrayType); conv { // []byte(s): a copy
+			return true
+		}
 		id, isId := call.Fun.(*ast.Ident)
 		return isId && id.Name == "make"
 	}
@@ -1045,8 +1215,8 @@ func (c *fctx) callStmt(call *ast.CallExpr, as *ast.AssignStmt, k func() string)
 		return "let now_ := now_ + " + paren(d) + " in\n" + k()
 	}
 	if g, rcv := t.callee(call, c.typeOfIdent); g != nil { // a listed function: bind what it returns
-		if g.slp || g.fuel {
-			t.fail(call, "call of %s, which sleeps or loops", g.key)
+		if g.slp {
+			t.fail(call, "call of %s, which sleeps", g.key)
 		}
 		if g.pan {
 			t.fail(call, "call of %s, which may panic", g.key)
@@ -1075,6 +1245,9 @@ func (c *fctx) callStmt(call *ast.CallExpr, as *ast.AssignStmt, k func() string)
 		if g.eff {
 			pat = append(pat, "effs_1")
 			out = "let effs_ := app effs_ effs_1 in\n"
+		}
+		if g.fuel { // the callee shares the caller's fuel; out of fuel there is out of fuel here
+			return "match " + app + " with\n| None => None\n| Some " + tuple(pat) + " =>\n" + ind(out+k()) + "\nend"
 		}
 		if len(pat) == 1 {
 			return "let " + pat[0] + " := " + app + " in\n" + out + k()
@@ -1224,6 +1397,12 @@ func (c *fctx) callCode(g *fn, rcv *ast.Ident, call *ast.CallExpr) (string, stri
 	if g.clk {
 		out += " now_"
 	}
+	if g.fuel {
+		if !c.f.fuel {
+			t.fail(call, "call of %s, which loops, from a function that does not", g.key)
+		}
+		out += " fuel_"
+	}
 	return out, g.resultType()
 }
 
@@ -1340,10 +1519,21 @@ func (c *fctx) rangeStmt(s *ast.RangeStmt, k func() string) string {
 	}
 	keyUses, elemUses := 0, 0
 	xsSrc := t.src(s.X)
+	written := map[ast.Node]bool{} // xs[i] = v: a write, and it rules out reading xs[i] as the loop's element
+	ast.Inspect(s.Body, func(n ast.Node) bool {
+		if as, ok := n.(*ast.AssignStmt); ok {
+			for _, l := range as.Lhs {
+				if ix, ok := l.(*ast.IndexExpr); ok && t.src(ix.X) == xsSrc {
+					written[ix] = true
+				}
+			}
+		}
+		return true
+	})
 	carried, carriedT, seen := c.carriedVars(s.Body, s.Body, func(n ast.Node) {
 		switch n := n.(type) {
 		case *ast.IndexExpr:
-			if id, ok := n.Index.(*ast.Ident); ok && key != nil && id.Obj == key.Obj && t.src(n.X) == xsSrc {
+			if id, ok := n.Index.(*ast.Ident); ok && key != nil && id.Obj == key.Obj && t.src(n.X) == xsSrc && !written[n] {
 				elemUses++
 			}
 		case *ast.Ident:
